@@ -473,3 +473,61 @@ def replay_fleaf(ctx, res):
             except Exception as ex:
                 done[fam] = {"reproduced": False, "outcome": "replayer error: %r" % (ex,)}
         o.replay = done[fam]
+
+
+FSTATE_SCRIPT = r'''
+import sys, importlib
+fam = %(fam)r
+M = importlib.import_module("BTrees._%%sBTree" %% fam)
+bad = []
+def val(k):
+    return %(valexpr)s
+for n in (0, 1, 2, 5, 40):
+    keys = [3 * k + 1 for k in range(n)]
+    b, s = getattr(M, fam + "Bucket")(), getattr(M, fam + "Set")()
+    for k in keys:
+        b[k] = val(k); s.add(k)
+    want_b = (tuple(x for k in keys for x in (k, val(k))),)
+    want_s = (tuple(keys),)
+    for obj, want, nm in ((b, want_b, "Bucket"), (s, want_s, "Set")):
+        got = obj.__getstate__()
+        if got != want or [type(x) for x in got[0]] != [type(x) for x in want[0]]:
+            bad.append("%%s%%s of %%d entries: __getstate__() == %%r, documented %%r" %% (fam, nm, n, got, want))
+        nxt = type(obj)()
+        obj2 = type(obj)()
+        obj2.__setstate__(want + (nxt,))
+        got2 = obj2.__getstate__()
+        if len(got2) != 2 or got2[0] != want[0] or got2[1] is not nxt:
+            bad.append("%%s%%s of %%d entries with a successor: __getstate__() == %%r" %% (fam, nm, n, got2))
+print("\n".join(bad[:8]) or "no violation")
+sys.exit(1 if bad else 0)
+'''
+
+
+def replay_fstate(ctx, res):
+    """F-STATE has no input of its own: the replay compares __getstate__ of C leaves (with and without a successor)
+    with the documented tuples."""
+    import re
+    from lib import build
+    done = {}
+    for o in res.obligations:
+        if o.status not in ("refuted", "unknown") or not o.name.startswith("F-STATE"):
+            continue
+        fm = re.match(r"\[(\w\w)\]", o.detail or "")
+        if not fm:
+            continue
+        fam = fm.group(1)
+        if fam not in done:
+            valexpr = {"O": "'v%d' % k", "F": "k + 0.5"}.get(fam[1], "k * 7")
+            script = FSTATE_SCRIPT % {"fam": fam, "valexpr": valexpr}
+            try:
+                bdir = build.build((fam,))
+                e = dict(os.environ, PYTHONPATH=bdir + os.pathsep + VERIF)
+                p = subprocess.run([PY, "-c", script], env=e, capture_output=True, text=True, timeout=300)
+                crashed = p.returncode < 0
+                done[fam] = {"reproduced": p.returncode == 1 or crashed,
+                             "outcome": ("the interpreter was killed by signal %d: " % -p.returncode if crashed else "") +
+                             (p.stdout + p.stderr)[-1500:], "script": script, "families": [fam]}
+            except Exception as ex:
+                done[fam] = {"reproduced": False, "outcome": "replayer error: %r" % (ex,)}
+        o.replay = done[fam]
